@@ -61,10 +61,11 @@ claim("C02", "other",
       "slot-level role-coherence, level/role origin analysis and array-fill idiom rules over the clang AST", "DESIGN.md §2 C02")
 
 claim("C06", "other",
-      "Five structural clauses: (1) zero state - group memory is allocated only in TbfMemoryBlock::resetBlocksFromSizes and on every path the memset of the allocation lies between the (re)allocation decision and item construction, group constructors size every block through it; "
+      "Seven clauses: (1) zero state - group memory is allocated only in TbfMemoryBlock::resetBlocksFromSizes and on every path the memset of the allocation lies between the (re)allocation decision and item construction, group constructors size every block through it; "
       "(2) no narrowing on the copy path - a witness with real=float, data=double(/long double) through constructor, rebuild, export and target/source trees compiled with -Wconversion must be silent under src/core and src/containers; "
       "(3) execution cannot alter symbolic data - a probe kernel instantiated through the sequential, OpenMP, target/source and periodic top-tree executors sees headers as const and particle data as pointers to const at every operator, and shipped kernels cast const away only into const callee parameters; "
-      "(4) a curve index is never converted twice in an ordering class with Morton<->curve converters; (5) copy provenance in the group constructor: sorted slot p stores getParticleIndex(p) as original index and row positions[getParticleIndex(p)][v] as value v - index and data of one particle stay together. The position->leaf arithmetic (floor, clamping, rounding) and uniqueness are value-level and not decided. Particle *indices* are handed to L2P/P2P as `long*` by the wrapper; shipped kernels take them const - noted, not claimed.",
+      "(4) a curve index is never converted twice in an ordering class with Morton<->curve converters; (5) copy provenance in the group constructor: sorted slot p stores getParticleIndex(p) as original index and row positions[getParticleIndex(p)][v] as value v - index and data of one particle stay together; "
+      "(6) grid range, an interval analysis in exact arithmetic (symbolic in box width W and cells per dimension N = 2^(height-1)): every relative position of the CLOSED box [0, W] maps to a grid coordinate in [0, N-1], so a particle on the upper face lands in the last cell and not outside the grid; (7) the box corner is subtracted from the particle's coordinate before anything converts that coordinate to the tree's coordinate type (data type wider than coordinate type, box away from the origin). Floating-point rounding of the division and uniqueness of storage are value-level and not decided. Particle *indices* are handed to L2P/P2P as `long*` by the wrapper; shipped kernels take them const - noted, not claimed.",
       "Trusted: clang 14 + tbfscan, g++ -Wconversion as narrowing oracle, g++/clang++ for the probe witness.",
       "must-pass-through / who-may-allocate rules, -Wconversion witness, type-level probe kernel, curve-domain typing", "DESIGN.md §2 C06")
 
